@@ -80,21 +80,50 @@ def run(ck, facts, tier):
             ck.ok(R, "all-unordered-pairs")
         else:
             ck.violation(R, "all-unordered-pairs", vs.where(), "every unordered pair of the trait's impls must be examined")
-        conts = [n for n in walk(th) if n.get("k") == "if" and any(x.get("k") == "continue" for x in walk(n["then"]))]
-        ok_skip = len(conts) == 1 and len([c for c in calls(conts[0]["cond"], "is_positive")]) == 2 and \
-            peel(conts[0]["cond"]).get("k") == "logic" and peel(conts[0]["cond"])["op"] == "And" and \
-            all(peel(x).get("k") == "un" for x in (peel(conts[0]["cond"])["l"], peel(conts[0]["cond"])["r"]))
+        # stated on MIR paths (no assumption on `if !a && !b { continue }` vs nested ifs vs early continue):
+        # a pair leaves the loop body without reaching disjoint() only on a path that saw is_positive() == false for BOTH impls
+        from kit import calls_grouped_edges
+        cfg0 = vs.cfg
+        dj_blocks = cfg0.call_blocks(CS + "disjoint")
+        nxt0 = cfg0.call_blocks("Iterator::next")
+        exits0 = set(nxt0) | set(cfg0.return_blocks())
+        some_edges = cfg0.variant_edges(lambda tr: tr.get("of", {}).get("kind") == "call" and callee_matches(tr["of"]["call"], "Iterator::next"), ["Some"])
+        neg_edges = calls_grouped_edges(cfg0, "is_positive", False)
+        ok_skip = bool(dj_blocks) and bool(some_edges)
+        why = ""
+        for e in some_edges:
+            bypass = cfg0.reachable(e[1], (), False, stop=set(dj_blocks) | exits0)
+            if not (bypass & exits0):
+                continue                                    # no pair is skipped at all
+            if len(neg_edges) < 2:
+                ok_skip, why = False, "pairs are skipped, but not on a test of both impls' polarity"
+                break
+            for cb, edges in neg_edges.items():
+                again = cfg0.reachable(e[1], edges, False, stop=set(dj_blocks) | exits0)
+                if again & exits0:
+                    ok_skip, why = False, "a pair can be skipped without `!is_positive()` of both impls"
         if ok_skip:
             ck.ok(R, "skip-only-negative-negative")
         else:
-            ck.violation(R, "skip-only-negative-negative", vs.where(), "only pairs of two negative impls may be skipped")
+            ck.violation(R, "skip-only-negative-negative", vs.where(), "only pairs of two negative impls may be skipped (%s)" % (why or "disjoint() not found"))
         ms = [m for m in walk(th) if m.get("k") == "match" and m.get("sty") == "(bool, bool)"]
         if len(ms) != 1:
             ck.violation(R, "specialization-match", vs.where(), "expected the match on (specializes(l,r), specializes(r,l))")
         else:
             m = ms[0]
             sc = peel(m["scrut"])
-            args_ok = sc.get("k") == "tuple" and [[var_name(a) for a in c["args"][1:]] for c in calls(sc, "specializes")] == [["l_id", "r_id"], ["r_id", "l_id"]]
+            from kit import let_inits, resolve_var, for_loops
+            inits = let_inits(th)
+            lv = []
+            for _l, _it, pat, _b in for_loops(th):
+                from core import pat_bindings
+                lv = [nm for nm, _p in pat_bindings(pat)] if pat else []
+                if len(lv) == 2:
+                    break
+            L, Rr = (lv + ["l_id", "r_id"])[:2]
+            elems = [resolve_var(x, inits) for x in (sc.get("es") or [])] if sc.get("k") == "tuple" else []
+            args_ok = len(elems) == 2 and all(e.get("k") == "call" and callee_matches(e, "specializes") for e in elems) and \
+                [[var_name(a) for a in e["args"][1:]] for e in elems] == [[L, Rr], [Rr, L]]
             table = {}
             for a in ("true", "false"):
                 for bq in ("true", "false"):
@@ -114,7 +143,7 @@ def run(ck, facts, tier):
                         any(x.get("k") == "adt" and x.get("v") == "OverlappingImpls" for x in walk(first))
                     order = None
                     if rec:
-                        order = tuple(v for v in [var_name(x) for x in (peel(rec[0]["args"][-1]).get("es") or rec[0]["args"][-2:])])
+                        order = tuple({L: "l_id", Rr: "r_id"}.get(v, v) for v in [var_name(x) for x in (peel(rec[0]["args"][-1]).get("es") or rec[0]["args"][-2:])])
                     table[(a, bq)] = ("record", order) if rec else ("err" if err else "other")
             want = {("true", "false"): ("record", ("l_id", "r_id")), ("false", "true"): ("record", ("r_id", "l_id")),
                     ("true", "true"): "err", ("false", "false"): "err"}
@@ -122,9 +151,16 @@ def run(ck, facts, tier):
                 ck.ok(R, "overlap-outcomes", "strict specialization recorded in the right direction; anything else is OverlappingImpls")
             else:
                 ck.violation(R, "overlap-outcomes", vs.where(m.get("ln")), "outcome table is %s (args ok: %s)" % (table, args_ok))
-        # overlap test guards the match: `if !self.disjoint(lhs, rhs)`
-        dis = [n for n in walk(th) if n.get("k") == "if" and has_call(n["cond"], CS + "disjoint")]
-        if len(dis) == 1 and peel(dis[0]["cond"]).get("k") == "un" and dis[0].get("else") is None:
+        # specialization is examined exactly for the non-disjoint pairs (MIR paths): specializes() is reached only behind the false
+        # edge of disjoint(), and from that edge no path gets to the next pair / the return without the specialization decision
+        sp_blocks = cfg0.call_blocks(CS + "specializes")
+        dj_false = [e for es in calls_grouped_edges(cfg0, CS + "disjoint", False).values() for e in es]
+        ok_dis = bool(sp_blocks) and bool(dj_false) and all(cfg0.must_pass_edges(sb, dj_false) for sb in sp_blocks)
+        for e in dj_false:
+            r = cfg0.reachable(e[1], (), False, stop=set(sp_blocks))
+            if (r - set(sp_blocks)) & exits0:
+                ok_dis = False
+        if ok_dis:
             ck.ok(R, "overlap-iff-not-disjoint")
         else:
             ck.violation(R, "overlap-iff-not-disjoint", vs.where(), "specialization must be examined exactly for non-disjoint pairs")
